@@ -476,6 +476,61 @@ def boost_dev_dep_policy(rng, case):
     return case
 
 
+def boost_waived_parent(rng, case):
+    """a store that vets (everything else exempted) in which a crate P is WAIVED by its only dependent
+    (`dependency-criteria = { P = [] }`: nothing is required of P itself) while P's own policy entry demands a criterion of
+    ITS dependency D that D is not certified for — a package's explicit `dependency-criteria` applies whatever is
+    required of the package itself"""
+    store = case["store_struct"]
+    pkgs = case["graph"]["packages"]
+    notes = Notes()
+    notes.n = 3700
+    crits = _crits(store)
+    tv = _third_versions(case)
+    single = sorted(n for n, vs in tv.items() if len(vs) == 1 and "@" not in vs[0]
+                    and sum(1 for p in pkgs if p["name"] == n) == 1
+                    and all(p["source"] == "registry" for p in pkgs if p["name"] == n))
+    ws = [p for p in pkgs if p["workspace"]]
+    if len(single) < 2 or not ws:
+        return case
+    pn, dn = rng.sample(single, 2)
+    P = next(p for p in pkgs if p["name"] == pn)
+    D = next(p for p in pkgs if p["name"] == dn)
+    member = rng.choice(ws)
+    for p in pkgs:
+        p["deps"] = [x for x in p["deps"] if x["name"] not in (pn, dn)]
+    P["deps"] = [x for x in P["deps"] if x["name"] not in (pn, dn)] + [{"name": dn, "version": D["version"], "source": D["source"], "kinds": ["normal"]}]
+    D["deps"] = [x for x in D["deps"] if x["name"] != pn]
+    member["deps"].append({"name": pn, "version": P["version"], "source": P["source"], "kinds": ["normal"]})
+    for n, l in store["audits"].items():
+        store["audits"][n] = [a for a in l if a.get("kind") != "violation"]
+    for f in store["lock"]["audits"].values():
+        for n, l in f.get("audits", {}).items():
+            f["audits"][n] = [a for a in l if a.get("kind") != "violation"]
+    blanket_exemptions(store, pkgs, crits, notes, dn)
+    for tbl in ("wildcard_audits", "trusted", "exemptions"):
+        store[tbl].pop(dn, None)
+    for f in store["lock"]["audits"].values():
+        f.get("audits", {}).pop(dn, None)
+        f.get("wildcard_audits", {}).pop(dn, None)
+    store["audits"][dn] = [{"kind": "full", "version": vstr(D), "criteria": rng.choice([["safe-to-run"], ["safe-to-run"], ["safe-to-deploy"]]), "notes": notes()}]
+    store["policy"] = {k: v for k, v in store["policy"].items() if k.split(":")[0] not in (member["name"], pn)}
+    store["policy"][member["name"]] = {"dependency-criteria": {pn: []}}
+    store["policy"][pn] = {"dependency-criteria": {dn: rng.choice([["safe-to-deploy"], ["safe-to-deploy"], [c for c in crits if c not in BUILTINS][:1] or ["safe-to-deploy"]])}}
+    for k, v in list(store["policy"].items()):
+        dc = v.get("dependency-criteria")
+        if dc:
+            names = {x["name"] for p in pkgs if p["name"] == k.split(":")[0] for x in p["deps"]}
+            for d_ in list(dc):
+                if d_ not in names:
+                    del dc[d_]
+            if not dc:
+                del v["dependency-criteria"]
+                if not v:
+                    v["notes"] = "empty"
+    return case
+
+
 def boost_exemptions(rng, case):
     store = case["store_struct"]
     notes = Notes()
@@ -1033,8 +1088,14 @@ def boost_unpublished(rng, pkgs, store, reg, crits, notes, peers_struct=None):
             store["exemptions"].pop(p["name"], None)
             return p["name"]
     recs = [{"version": v, "audited_as": old}]
-    if rng.random() < 0.3:
+    r_ = rng.random()
+    if r_ < 0.3:
         recs.append({"version": v, "audited_as": cur})
+    elif r_ < 0.45:
+        # both records from earlier runs, and crates.io has MEANWHILE published the exact version: nothing fresh will be
+        # recorded any more, the crate vets only through the recorded link to the audited version
+        recs.append({"version": v, "audited_as": cur})
+        reg[p["name"]] = reg[p["name"]] + [{"version": v, "by": rng.choice([1, 2, 3]), "when": rng.choice(DATES[3:6])}]
     store["lock"]["unpublished"][p["name"]] = sorted(recs, key=lambda r: VERSIONS.index(r["audited_as"]))
     l = store["audits"].setdefault(p["name"], [])
     l.append({"kind": "full", "version": cur, "criteria": ["safe-to-deploy"] + [c for c in crits if c not in BUILTINS], "notes": notes()})
@@ -1136,6 +1197,37 @@ def gen_history(rng, cid, length=None):
         add(["regenerate", "exemptions"])
     elif first < 0.8:
         add(["check"])
+    if peers and rng.random() < 0.35:
+        # a peer file as a person writes it: a violation entry (for a version nobody uses) listed BEFORE the audits of a crate
+        for url in sorted(peers):
+            for n_ in sorted(peers[url].get("audits", {})):
+                if peers[url]["audits"][n_] and rng.random() < 0.6:
+                    peers[url]["audits"][n_].insert(0, {"kind": "violation", "violation": rng.choice(["=9.9.9", "=99.0.0", "<0.0.1"]),
+                                                        "criteria": [rng.choice(["safe-to-run", "safe-to-deploy"])], "notes": notes()})
+    if third and rng.random() < 0.15:
+        # a hand-written `suggest = false` exemption that covers only PART of what the crate needs; regenerating the
+        # exemptions must leave it as written and put the rest into an exemption of its own
+        pkg = rng.choice(third)
+        v = rng.choice(versions[pkg])
+        if "@" not in v:
+            store["audits"].pop(pkg, None)
+            for tbl in ("wildcard_audits", "trusted"):
+                store[tbl].pop(pkg, None)
+            for lf in store["lock"]["audits"].values():
+                lf.get("audits", {}).pop(pkg, None)
+                lf.get("wildcard_audits", {}).pop(pkg, None)
+            store["exemptions"][pkg] = [{"version": v, "criteria": ["safe-to-run"], "suggest": False, "notes": "hand-written"}]
+            # every dependent asks for safe-to-run AND an independent custom criterion: partial overlap with the exemption
+            pk_all = base["graph"]["packages"]
+            parents = [q for q in pk_all if any(d["name"] == pkg for d in q["deps"])]
+            if parents and all(sum(1 for z in pk_all if z["name"] == q["name"]) == 1 for q in parents):
+                store["criteria"].setdefault("crit-ind", {"description": "independent of the built-ins"})
+                for q in parents:
+                    ent = {k_: v_ for k_, v_ in (store["policy"].get(q["name"]) or {}).items() if k_ != "notes"}
+                    ent.setdefault("dependency-criteria", {})[pkg] = ["safe-to-run", "crit-ind"]
+                    store["policy"] = {k_: v_ for k_, v_ in store["policy"].items() if k_.split(":")[0] != q["name"]}
+                    store["policy"][q["name"]] = ent
+            add(["regenerate", "exemptions"])
     if third and rng.random() < 0.12:
         # `trust` next to an existing, STRONGER grant for the same publisher: the user asks for a weaker criterion
         # (or another window); the existing entry is not what was asked about and must stay as it is
@@ -1213,6 +1305,117 @@ def gen_history(rng, cid, length=None):
     case = {"id": cid, "kind": "history", "graph": base["graph"], "store_struct": store,
             "store": render_store(store), "steps": steps}
     return case
+
+
+def scenario_two_versions_exemption(cid, k=0):
+    """deterministic history: two in-graph versions of one crate with DIFFERENT requirements (one a normal dependency,
+    needs safe-to-deploy; the other reached through a dev-dependency only, needs safe-to-run), each audited for what it
+    needs, plus an exemption for the dev-only version listing safe-to-deploy — which nothing needs of that version.
+    `prune` must drop (k=0) or narrow (k=1: no audit for the dev-only version) that exemption."""
+    pkgs = [{"name": "wsaaa", "version": "1.0.0", "source": "path", "workspace": True,
+             "deps": [{"name": "tpaaa", "version": "3.0.0", "source": "registry", "kinds": ["normal"]},
+                      {"name": "tpaaa", "version": "2.0.0", "source": "registry", "kinds": ["dev"]}]},
+            {"name": "tpaaa", "version": "3.0.0", "source": "registry", "workspace": False, "deps": []},
+            {"name": "tpaaa", "version": "2.0.0", "source": "registry", "workspace": False, "deps": []}]
+    audits = [{"kind": "full", "version": "3.0.0", "criteria": ["safe-to-deploy"], "notes": "the one in use"}]
+    if k % 2 == 0:
+        audits.append({"kind": "full", "version": "2.0.0", "criteria": ["safe-to-run"], "notes": "the dev one"})
+    store = {"criteria": {}, "policy": {}, "imports": {}, "audits": {"tpaaa": audits}, "wildcard_audits": {}, "trusted": {},
+             "exemptions": {"tpaaa": [{"version": "2.0.0", "criteria": ["safe-to-deploy"], "suggest": True, "notes": "too much"}]},
+             "lock": {"audits": {}, "publisher": {}, "unpublished": {}}}
+    registry = {"users": [[1, "user1", "User 1"]],
+                "packages": {"tpaaa": [{"version": "2.0.0", "by": 1, "when": "2022-01-01"}, {"version": "3.0.0", "by": 1, "when": "2022-06-15"}]},
+                "meta": {}}
+    remote = render_remote({}, registry)
+    cmds = [["check"], ["prune"], ["check"]]
+    return {"id": cid, "kind": "history", "graph": {"packages": pkgs}, "store_struct": store,
+            "store": render_store(store), "steps": [{"args": a, "remote": remote} for a in cmds]}
+
+
+def scenario_stale_unpublished(cid, k=0):
+    """deterministic history: a path crate declared audit-as-crates-io whose imports.lock holds TWO `unpublished` records
+    for its version from earlier runs (audited as 2.0.0 and as 3.0.0), only 3.0.0 is audited, and crates.io has meanwhile
+    published the exact version (so nothing fresh is recorded any more): the crate vets through the 3.0.0 record only."""
+    pkgs = [{"name": "wsaaa", "version": "1.0.0", "source": "path", "workspace": True,
+             "deps": [{"name": "fpxxx", "version": "4.0.0", "source": "path", "kinds": ["normal"]}]},
+            {"name": "fpxxx", "version": "4.0.0", "source": "path", "workspace": False, "deps": []}]
+    store = {"criteria": {}, "policy": {"fpxxx": {"audit-as-crates-io": True}}, "imports": {}, "exemptions": {},
+             "audits": {"fpxxx": [{"kind": "full", "version": "3.0.0", "criteria": ["safe-to-deploy"], "notes": "the audited one"}]},
+             "wildcard_audits": {}, "trusted": {},
+             "lock": {"audits": {}, "publisher": {},
+                      "unpublished": {"fpxxx": [{"version": "4.0.0", "audited_as": "2.0.0"}, {"version": "4.0.0", "audited_as": "3.0.0"}]}}}
+    served = ["2.0.0", "3.0.0"] + (["4.0.0"] if k % 2 == 0 else [])
+    registry = {"users": [[1, "user1", "User 1"]],
+                "packages": {"fpxxx": [{"version": x, "by": 1, "when": "2022-01-01"} for x in served]},
+                "meta": {"fpxxx": {"description": "whatever"}}}
+    remote = render_remote({}, registry)
+    cmds = [["check"], ["check"], ["prune", "--no-exemptions"], ["check", "--locked"]]
+    return {"id": cid, "kind": "history", "graph": {"packages": pkgs}, "store_struct": store,
+            "store": render_store(store), "steps": [{"args": a, "remote": remote} for a in cmds]}
+
+
+def gen_stale_exclude_case(rng, cid):
+    """locked load: one to three imports, one of which excludes a crate (or not); imports.lock may still hold audits or
+    wildcard audits for that crate under that very import (from before the exclusion).  Whichever position the
+    excluding import has, the stale entries must not be accepted (cargo-vet refuses the load: ImportsLockOutdated)."""
+    nimp = rng.choice([1, 2, 2, 3])
+    peers = [("peer-aaa", "https://peer-aaa.example/audits.toml"), ("peer-mmm", "https://peer-mmm.example/audits.toml"),
+             ("peer-zzz", "https://peer-zzz.example/audits.toml")][:nimp]
+    excluding = rng.randrange(nimp)
+    stale = rng.random() < 0.75
+    where = rng.choice(["audits", "wildcard_audits"])
+    pkgs = [{"name": "wsaaa", "version": "1.0.0", "source": "path", "workspace": True,
+             "deps": [{"name": "tpaaa", "version": "2.0.0", "source": "registry", "kinds": ["normal"]},
+                      {"name": "tpbbb", "version": "1.0.0", "source": "registry", "kinds": ["normal"]}]},
+            {"name": "tpaaa", "version": "2.0.0", "source": "registry", "workspace": False, "deps": []},
+            {"name": "tpbbb", "version": "1.0.0", "source": "registry", "workspace": False, "deps": []}]
+    store = {"criteria": {}, "policy": {}, "imports": {}, "audits": {}, "wildcard_audits": {}, "trusted": {},
+             "exemptions": {"tpbbb": [{"version": "1.0.0", "criteria": ["safe-to-deploy"], "suggest": True, "notes": "n"}]},
+             "lock": {"audits": {}, "publisher": {"tpaaa": [{"version": "2.0.0", "when": "2022-06-15", "user-id": 1, "user-login": "user1", "user-name": "User 1"}]},
+                      "unpublished": {}}}
+    for k, (pn, url) in enumerate(peers):
+        imp = {"url": [url]}
+        lockf = {"criteria": {}, "audits": {}, "wildcard_audits": {}}
+        if k == excluding:
+            imp["exclude"] = ["tpaaa"] if rng.random() < 0.8 else ["tpaaa", "zz-other"]
+            if stale:
+                if where == "audits":
+                    lockf["audits"]["tpaaa"] = [{"kind": "full", "version": "2.0.0", "criteria": ["safe-to-deploy"], "notes": "from before the exclusion"}]
+                else:
+                    lockf["wildcard_audits"]["tpaaa"] = [{"user-id": 1, "start": "2022-01-01", "end": "2023-06-01", "criteria": ["safe-to-deploy"], "notes": "from before"}]
+        elif rng.random() < 0.5:
+            lockf["audits"]["tpbbb"] = [{"kind": "full", "version": "1.0.0", "criteria": ["safe-to-run"], "notes": "harmless"}]
+        store["imports"][pn] = imp
+        store["lock"]["audits"][pn] = lockf
+    case = {"id": cid, "kind": "validate", "graph": {"packages": pkgs}, "store_struct": store, "peers_struct": {},
+            "registry": {"users": [[1, "user1", "User 1"]], "packages": {}, "meta": {}}, "mode": "locked", "faults": [],
+            "stale_exclude": stale}
+    return finalize(case)
+
+
+def scenario_violation_before_audit(cid, k=0):
+    """deterministic history: a peer's file, as a person writes it, lists a violation (for a version nobody uses) BEFORE the
+    audit the project needs; imports.lock is empty.  A successful unlocked check must record the needed audit, so that
+    `--locked` succeeds on what it wrote."""
+    peer, url = PEERS[0]
+    pkgs = [{"name": "wsaaa", "version": "1.0.0", "source": "path", "workspace": True,
+             "deps": [{"name": "tpaaa", "version": "2.0.0", "source": "registry", "kinds": ["normal"]}]},
+            {"name": "tpaaa", "version": "2.0.0", "source": "registry", "workspace": False, "deps": []}]
+    store = {"criteria": {}, "policy": {}, "imports": {peer: {"url": [url]}}, "exemptions": {}, "audits": {},
+             "wildcard_audits": {}, "trusted": {},
+             "lock": {"audits": {peer: {"criteria": {}, "audits": {}, "wildcard_audits": {}}}, "publisher": {}, "unpublished": {}}}
+    listed = [{"kind": "violation", "violation": "=9.9.9", "criteria": ["safe-to-run"], "notes": "an old bad release"},
+              {"kind": "full", "version": "2.0.0", "criteria": ["safe-to-deploy"], "notes": "the needed one"}]
+    if k % 2:
+        listed = [listed[0], {"kind": "violation", "violation": "<0.0.1", "criteria": ["safe-to-deploy"], "notes": "another"},
+                  {"kind": "full", "version": "1.0.0", "criteria": ["safe-to-deploy"], "notes": "base"},
+                  {"kind": "delta", "from": "1.0.0", "to": "2.0.0", "criteria": ["safe-to-deploy"], "notes": "the needed delta"}]
+    peers = {url: {"criteria": {}, "audits": {"tpaaa": listed}, "wildcard_audits": {}, "trusted": {}}}
+    registry = {"users": [[1, "user1", "User 1"]], "packages": {"tpaaa": [{"version": "2.0.0", "by": 1, "when": "2022-01-01"}]}, "meta": {}}
+    remote = render_remote(peers, registry)
+    cmds = [["check"], ["check", "--locked"], ["prune"], ["check", "--locked"]]
+    return {"id": cid, "kind": "history", "graph": {"packages": pkgs}, "store_struct": store,
+            "store": render_store(store), "steps": [{"args": a, "remote": remote} for a in cmds]}
 
 
 def scenario_unpublished_vs_peer(cid, k=0):
@@ -1478,14 +1681,25 @@ def gen_aggregate_case(rng, cid):
         for n in names:
             if rng.random() < 0.6:
                 for a in gen_audits_for(rng, n, versions[n], pcrits, notes, True, 0.1):
-                    if rng.random() < 0.25:
+                    r_ = rng.random()
+                    if r_ < 0.25:
                         a["aggregated-from"] = [f"https://older{rng.randint(0, 2)}.example/a.toml"]
+                    elif r_ < 0.40 and nsrc > 1:
+                        # this source is itself an aggregate that once took the entry from ANOTHER source of this very
+                        # list (which may or may not still serve it): the entry is this source's own all the same
+                        other = rng.choice([j for j in range(nsrc) if j != k])
+                        a["aggregated-from"] = [f"https://src{other}.example/audits.toml"]
                     f["audits"].setdefault(n, []).append(a)
             if rng.random() < 0.25:
                 for w in gen_wildcards(rng, pcrits, notes):
+                    if nsrc > 1 and rng.random() < 0.3:
+                        w["aggregated-from"] = [f"https://src{rng.choice([j for j in range(nsrc) if j != k])}.example/audits.toml"]
                     f["wildcard_audits"].setdefault(n, []).append(w)
             if rng.random() < 0.15:
                 f["trusted"][n] = gen_wildcards(rng, pcrits, notes, trusted=True)
+                for w in f["trusted"][n]:
+                    if nsrc > 1 and rng.random() < 0.3:
+                        w["aggregated-from"] = [f"https://src{rng.choice([j for j in range(nsrc) if j != k])}.example/audits.toml"]
         structs[url] = f
         sources.append({"url": url, "text": render_audits_file(f)})
     # a local project to evaluate "import the aggregate" vs "import every source"
@@ -1581,6 +1795,9 @@ def gen_validate_case(rng, cid):
             store["criteria"]["loop-a"] = {"description": "x", "implies": ["loop-a"] if rng.random() < 0.5 else ["loop-b"]}
             if store["criteria"]["loop-a"]["implies"] == ["loop-b"]:
                 store["criteria"]["loop-b"] = {"description": "x", "implies": ["loop-a"]}
+            if rng.random() < 0.5:
+                # a criterion that is NOT on the cycle, sorts before its members and implies into it
+                store["criteria"]["an-entry"] = {"description": "x", "implies": [rng.choice(["loop-a", "loop-b"] if "loop-b" in store["criteria"] else ["loop-a"])]}
             faults.append({"kind": "table-cycle"})
         elif r < 0.65:
             store["criteria"][rng.choice(BUILTINS)] = {"description": "shadow"}
@@ -1618,6 +1835,8 @@ def gen_validate_case(rng, cid):
             elif k < 0.7:
                 pf["criteria"]["pl-a"] = {"description": "x", "implies": ["pl-b"]}
                 pf["criteria"]["pl-b"] = {"description": "x", "implies": ["pl-a"]}
+                if rng.random() < 0.5:
+                    pf["criteria"]["p-entry"] = {"description": "x", "implies": [rng.choice(["pl-a", "pl-b"])]}
                 faults.append({"kind": "peer-table-cycle"})
             else:
                 # entries of a peer naming criteria the peer does not define: alone, or mixed with known ones; in audits
@@ -1820,6 +2039,14 @@ def gen_unpack_case(rng, cid):
         if idx and sub and sub[0] < idx[0]:
             entries[idx[0]], entries[sub[0]] = entries[sub[0]], entries[idx[0]]
     case = {"id": cid, "kind": "unpack", "name": name, "version": version, "entries": entries}
+    if rng.random() < 0.35:
+        # what an earlier interrupted unpack (or an old cargo) may have left: a marker that does NOT say "ok" (empty,
+        # another tool's body, a trailing newline) beside a partial tree and a stale file
+        pre = [{"path": f"{pre}/.cargo-ok", "content": rng.choice(["", "", "{\"v\":1}", "ok\n", "o"])},
+               {"path": f"{pre}/stale-{rng.randint(0, 9)}.rs", "content": "left over"}]
+        if rng.random() < 0.5:
+            pre.append({"path": f"{pre}/src/lib.rs", "content": "half written"})
+        case["pre"] = pre
     if rng.random() < 0.7:
         # cut the (uncompressed-gzip) stream somewhere: inside a header, inside a body, at a boundary
         approx = 30 + sum(512 + (len(e.get("content", "")) + 511) // 512 * 512 for e in entries)
@@ -1839,6 +2066,12 @@ def gen_lock_case(rng, cid):
         users.append({"role": role,
                       "start_us": rng.randrange(0, 300) if burst else rng.randrange(0, 4000),
                       "think_us": rng.choice([0, 0, 50, 200, 800, 2000, 5000])})
+    if rng.random() < 0.4:
+        # `--locked` is a global option: invocations that run with it load and COMMIT all the same
+        flags = rng.choice(["all", "some"])
+        for u in users:
+            if u["role"] != "cache" and (flags == "all" or rng.random() < 0.5):
+                u["locked"] = True
     if not any(u["role"] == "writer" for u in users):
         users[0]["role"] = "writer"
     if sum(u["role"] != "cache" for u in users) < 2:
